@@ -39,11 +39,11 @@ FL = 'every bit pattern (NaN, infinities, denormals, signed zeros included) for 
 FA = ('quick tier: element values and eps from the alphabet {0, 1, 1.5, -1, 1.0000001, 2.5, 1e30, NaN} (the element-level comparison is decided over all bit patterns in close_f32/close_f64); '
       'thorough tier: every bit pattern')
 _h('close_f32', 'float/float scalars; ' + FL, dbg_kf=False, backend='cadical', dbg_quick=False)
-_h('close_lemma', 'symmetry of the reference |a-b| < eps itself (IEEE-754), float (quick) and double (thorough); ' + FL, dbg=False, backend='cadical', quick=[{'LEMMA': 32}], thorough=[{'LEMMA': 32}, {'LEMMA': 64}], gate=False)
+_h('close_lemma', 'facts about the reference itself, no nmtools code: larger-minus-smaller equals fabs(a-b) and is symmetric (IEEE-754), float (quick) and double (thorough); for 32-bit integer operands converted to double it equals the exact integer |a-b| < eps (LEMMA 1 unsigned; LEMMA 2 int, split by the sign pattern SGN of the operands as per-query constant: the mixed-sign case in the quick tier, all four in the thorough tier); ' + FL, dbg=False, backend='cadical', quick=[{'LEMMA': 32}, {'LEMMA': 1, '_timeout': 900}, {'LEMMA': 2, 'SGN': 2, '_timeout': 900}], thorough=[{'LEMMA': 32}, {'LEMMA': 1, '_timeout': 900}] + [{'LEMMA': 2, 'SGN': g, '_timeout': 1800} for g in (0, 1, 2, 3)] + [{'LEMMA': 64, '_timeout': 3600}], gate=False)
 _h('close_f64', 'double/double scalars; ' + FL, dbg_kf=False, backend='cadical', kf='KF_C18_CLOSE_DOUBLE_ROUNDS_TO_FLOAT', dbg_quick=False, timeout=900)
 _h('close_f32_f64', 'float/double scalars; ' + FL, dbg_kf=False, backend='cadical', kf='KF_C18_CLOSE_DOUBLE_ROUNDS_TO_FLOAT', dbg_quick=False, timeout=900)
-_h('close_uint', 'unsigned/unsigned scalars, double eps: all values', dbg_kf=False, kf='KF_C18_CLOSE_UNSIGNED_WRAPS')
-_h('close_int', 'int/int scalars, double eps: all values', dbg_kf=False, kf='KF_C18_CLOSE_INT_OVERFLOW')
+_h('close_uint', 'unsigned/unsigned scalars, double eps: all values', dbg_kf=False, backend='cadical', kf='KF_C18_CLOSE_UNSIGNED_WRAPS')
+_h('close_int', 'int/int scalars, double eps: all values', dbg_kf=False, backend='cadical', kf='KF_C18_CLOSE_INT_OVERFLOW')
 ND = 'extents 0..MAXE symbolic on both sides (same shape, same size with another shape, other sizes), all element data symbolic; both call orders'
 DIMS = [{'NA': a, 'NB': b} for a in (1, 2, 3) for b in (1, 2, 3) if a <= b]
 SAMED = lambda c: c.get('NA') == c.get('NB', 2)
